@@ -3,7 +3,7 @@ CONSTANTS N = 3
   Intervals = {0, 1, 2}
   Scripts = {"none", "dis_self", "dis_o1", "dis_o2", "dis_o3", "en_o1_1", "en_o3_2", "dest_self", "dest_o1", "dest_o3", "err", "mk"}
   Steps = 2
-  TopOps = {"hb:o1:0", "hb:o2:1", "dest:o1"}
+  TopOps = {"hb:o1:0", "hb:o2:1", "dest:o1", "set=kx=err;co:A:1:kx"}
   Sim = FALSE
 INVARIANT Emit
 CHECK_DEADLOCK FALSE
